@@ -241,6 +241,20 @@ PROPS["C16"] = {
     "assumptions": [],
 }
 
+PROPS["C12"] = {
+    "level": "fault_enumeration",
+    "level_text": "held on N malformed inputs: at every position of random valid histories (one-shot, stream and notification requests outstanding), malformed events and malformed responses to every outstanding request - random bytes, truncation at every length, extension, bit flips, every 8-byte window set to each of 10 hostile lengths, every 4-byte window as a corrupt variant index; for JSON: unbalanced, 2k-10k deep nesting, wrong types, huge numbers, invalid UTF-8 and escapes - returned normally or with an error value: no panic (trap), no allocation above 64 MiB for inputs of a few KiB (counting global allocator), no hang (per-case watchdog); a rejected event left view bytes and registry unchanged; after every attack round a valid step behaved exactly as on a twin bridge that never saw the malformed input (effects modulo ids, view).",
+    "level_note": "the app (harness/cmdlab/src/fuzzapp.rs) is total, so every panic is the bridge's or the serde stack's; ids are always those of outstanding requests (documented precondition); a one-shot request that received a malformed response is retired on both bridges ('affects at most the one request it was addressed to')",
+    "technique": "fault injection at every history position + twin-bridge differential + counting allocator + panic trap",
+    "rule": "history of 3-14 valid steps; before each step the full mutation set against one fresh event encoding and against a fresh response encoding for each outstanding request (all mutations for streams, one for a one-shot); non-trivial = malformed input that was rejected with app state verified unchanged; distinct = hash of (bytes, mutation kind, history)",
+    "lanes": [{"name": "bridgefuzz", "pkg": "cmdlab", "bin": "bridgefuzz", "workers": {"quick": 4, "thorough": 16}, "timeout": {"quick": 900, "thorough": 5400}}],
+    "floors": {"quick": {"evaluations": 200000, "distinct_nontrivial": 80000, "malformed_events_offered": 80000, "malformed_responses_offered": 80000, "valid_steps": 1000},
+               "thorough": {"evaluations": 20000000, "distinct_nontrivial": 390000}},
+    "must_cover": {"mutations": ["random-bytes", "truncated", "extended", "bit-flip", "length-field", "variant-index", "json-deep-nesting", "json-wrong-type", "json-huge-number", "json-unbalanced"],
+                   "response_targets": ["one-shot", "stream"], "wires": ["bincode", "json"]},
+    "assumptions": ["semantically wrong but well-formed responses (a response kind that does not match the operation) are capability-crate developer errors, not this property"],
+}
+
 ENGINES = [
     {"name": "cmdlab", "path": "harness/cmdlab", "serves_properties": ["C01", "C02", "C03", "C04", "C05", "C06", "C07", "C09"],
      "kind_free_text": "random program generator + executable reference model of command semantics + hosts (direct, stream-polled, nested, Core, legacy, bincode/JSON bridge) run in lock-step on the real crux code"},
@@ -252,5 +266,5 @@ ENGINES = [
 
 NOT_APPLICABLE = [
     {"property_id": p, "reason": "check not built yet in this session (see DESIGN.md); to be claimed once its engine exists"}
-    for p in ["C11", "C12", "C13", "C20"]
+    for p in ["C11", "C13", "C20"]
 ]
